@@ -93,7 +93,7 @@ def run(mod, pid, tier, seed, keep=False, only=None):
             for h in hs:
                 groups.setdefault(h.features, []).append(h)
             for feat, group in groups.items():
-                res, wall = kanirun.run_group(scratch, group, feat, timeout_s, jobs, log)
+                res, wall = kanirun.run_group(scratch, group, feat, timeout_s, jobs, log, cbmc_args=getattr(mod, 'CBMC_ARGS', None), kani_args=getattr(mod, 'KANI_ARGS', None))
                 results.update(res)
         if hasattr(mod, "extra"):
             extra = mod.extra(tier, seed, log)
